@@ -493,7 +493,7 @@ def run_slice(spec, res, only=None, tmp=None, tid=0, collect=None):
                 continue
             # ---- save / load
             res.count("items_serialize_load")
-            ok, r = attempt(res, f"C15|save_load|serialize-load|{p[0]}", rn, rp, lambda: L.MTM.load(t.serialize()))
+            ok, r = attempt(res, "C15|save_load|serialize-load", rn, rp, lambda: L.MTM.load(t.serialize()))
             if ok:
                 judge_loaded(res, "serialize-load", r, t, p, nm, hv, rp)
             if zanj is not None:
@@ -504,7 +504,7 @@ def run_slice(spec, res, only=None, tmp=None, tid=0, collect=None):
                     zanj.save(t, path)
                     return zanj.read(path)
 
-                ok, r = attempt(res, f"C15|save_load|zanj|{p[0]}", rn, rp, via_file)
+                ok, r = attempt(res, "C15|save_load|zanj", rn, rp, via_file)
                 if ok:
                     judge_loaded(res, "zanj", r, t, p, nm, hv, rp)
                 if os.path.exists(path):
@@ -559,13 +559,13 @@ def judge_loaded(res, how, r, t, p, nm, hv, rp):
         eq = (r == t) is True and (t == r) is True
         rn, rh = r.name, hash(r)
     except Exception as e:
-        res.fail(f"C15|save_load|{how}|{p[0]}|loaded object unusable|{type(e).__name__}", f"{e!r} for {ref_name(p)}", rp)
+        res.fail(f"C15|save_load|{how}|loaded object unusable|{type(e).__name__}", f"{e!r} for {ref_name(p)}", rp)
         return
     if not same_cfg or not eq:
         got = ref_name_safe(params_of_tok(r, None)) if type(r) is L.MTM else repr(r)[:200]
-        res.fail(f"C15|save_load|{how}|{p[0]}|not equal", f"loaded tokenizer differs (==: {eq}): saved {ref_name(p)}, loaded {got}", rp)
+        res.fail(f"C15|save_load|{how}|not equal", f"loaded tokenizer differs (==: {eq}): saved {ref_name(p)}, loaded {got}", rp)
     elif rn != nm or rh != hv[0]:
-        res.fail(f"C15|save_load|{how}|{p[0]}|name or hash differs", f"loaded name/hash {rn!r}/{rh} vs {nm!r}/{hv[0]}", rp)
+        res.fail(f"C15|save_load|{how}|name or hash differs", f"loaded name/hash {rn!r}/{rh} vs {nm!r}/{hv[0]}", rp)
 
 
 # ------------------------------------------------------------------------------------------------ other task kinds
